@@ -98,7 +98,8 @@ def _gen_reading(rng, ref, key, x, P, k, p, tags):
         elif k is not None:
             # boundary: place the NIS at thr*(1+delta) along a random direction
             m = len(rn)
-            thr = k * math.sqrt(2 * m) + m
+            m_thr = rng.choice([m, m, m] + [len(v) for v in ref.readings.values()] + [m + 1])  # sometimes ANOTHER sensor's threshold
+            thr = k * math.sqrt(2 * m_thr) + m_thr
             dvec = np.array([[rng.gauss(0, 1)] for _ in rn])
             if np.linalg.norm(dvec) > 0:
                 q = float((dvec.T @ np.linalg.inv(S) @ dvec).item())
@@ -106,7 +107,7 @@ def _gen_reading(rng, ref, key, x, P, k, p, tags):
                 alpha = math.sqrt(thr * (1 + delta) / q)
                 for i, r in enumerate(rn):
                     z[r] = float(hx[i, 0] + alpha * dvec[i, 0])
-                faults.append("corrupt:boundary")
+                faults.append("corrupt:boundary" if m_thr == m else "corrupt:boundary_other_size")
     return z, faults
 
 
@@ -125,9 +126,46 @@ def generate(rng, prop, tier, mode=None):
         return _gen_tie(rng, d, cfg)
     max_dt = xf(cfg["max_dt_sec"])
     k = cfg["innovation_filtering"]
+    # swarm knob: overall magnitude of noises and covariance (the properties quantify over ALL positive noise assignments)
+    scale = rng.choice([1.0, 1.0, 1.0, 1.0, 1e-9, 1e-6, 1e3]) if d["name"] != "direct2" else 1.0
+    if scale != 1.0:
+        d["process_noise"] = {k_: fx(xf(v) * scale) for k_, v in d["process_noise"].items()}
+        for sd in d["sensors"].values():
+            sd["noise"] = {k_: fx(xf(v) * scale) for k_, v in sd["noise"].items()}
+        d["tags"] = sorted(set(d.get("tags", []) + [f"scale_{scale:g}"]))
+    cfg["scale"] = scale
     ref = cached_ref(d)
     x, P, tags = draw_init(rng, d, p)
+    P = P * scale
     init = {"time": fx(rng.choice([0.0, 10.0, -2.5, 1000.0])), "state": {s: fx(v) for s, v in x.items()}, "covariance": [[fx(v) for v in row] for row in P], "tags": tags}
+    # unusual-but-legal containers for the initial estimate: integer / single-precision arrays handed to from_data
+    r_dt = rng.random()
+    if r_dt < 0.08:
+        x = {s_: float(round(v)) for s_, v in x.items()}
+        init["state"] = {s_: fx(v) for s_, v in x.items()}
+        init["state_dtype"] = "int64"
+        tags.append("state_dtype_int64")
+    elif r_dt < 0.14:
+        x = {s_: float(np.float32(v)) for s_, v in x.items()}
+        init["state"] = {s_: fx(v) for s_, v in x.items()}
+        init["state_dtype"] = "float32"
+        tags.append("state_dtype_float32")
+    r_dt = rng.random()
+    if r_dt < 0.06 and scale == 1.0:
+        P = np.diag([float(rng.randint(1, 3)) for _ in x])
+        init["covariance"] = [[fx(v) for v in row] for row in P]
+        init["cov_dtype"] = "int64"
+        tags.append("cov_dtype_int64")
+    elif r_dt < 0.12:
+        P = np.array(np.float32(P), dtype=float)
+        P = (P + P.T) / 2
+        P = np.array(np.float32(P), dtype=float)
+        init["covariance"] = [[fx(v) for v in row] for row in P]
+        init["cov_dtype"] = "float32"
+        tags.append("cov_dtype_float32")
+    if mode == "direct" and rng.random() < 0.25:
+        init["state2"] = {s_: fx(v + rng.uniform(-1, 1)) for s_, v in x.items()}
+        tags.append("second_track")
     lo, hi = p["steps"]
     n_steps = rng.randint(lo, hi * (4 if long else 1))
     sensors = sorted(d["sensors"])
@@ -145,37 +183,54 @@ class GenStop(Exception):
 
 def _gen_ops(rng, mode, ops, n_steps, ref, x, P, k, p, tags, sensors, max_dt, init):
     if mode == "direct":
+        # optional second track on the SAME filter object (legal: the filter keeps no estimate): it starts from the same
+        # covariance at another state and mirrors every operation with its own readings (hidden caches keyed on stale data)
+        two = init.get("state2") is not None
+        xs = [x] + ([{s_: xf(v) for s_, v in init["state2"].items()}] if two else [])
+        Ps = [P] + ([np.array(P)] if two else [])
         for _ in range(n_steps):
-            if max(abs(v) for v in x.values()) > 1e3 or np.max(np.abs(P)) > 1e5:
+            if max(abs(v) for x_ in xs for v in x_.values()) > 1e3 or max(float(np.max(np.abs(P_))) for P_ in Ps) > 1e5:
                 break
             if sensors and rng.random() < p["p_update"]:
                 key = rng.choice(sensors)
-                if rng.random() < 0.06:
-                    ops.append({"op": "update_at_prediction", "sensor": key, "faults": []})
-                    z = {r: float(v) for r, v in zip(ref.readings[key], ref.sensor(key, x, P)[0][:, 0])}
-                else:
-                    z, faults = _gen_reading(rng, ref, key, x, P, k, p, tags)
-                    ops.append({"op": "update", "sensor": key, "values": {r: fx(v) for r, v in z.items()}, "faults": faults})
-                u = ref.update(key, x, P, z, k)
-                if u is None:
-                    ops.pop()
-                    raise GenStop()
-                if not (k is not None and u["nis"] > u["thr"]):
-                    x, P = u["x_post"], u["P_post"]
+                kind = rng.random()
+                for t in range(len(xs)):
+                    x_, P_ = xs[t], Ps[t]
+                    if kind < 0.06:
+                        ops.append({"op": "update_at_prediction", "sensor": key, "track": t, "faults": []})
+                        z = {r: float(v) for r, v in zip(ref.readings[key], ref.sensor(key, x_, P_)[0][:, 0])}
+                    elif kind < 0.10:
+                        # a reading simulated with the filter's own sensor model at another state, handed over as is (aliasing fault)
+                        other = {s_: x_[s_] + rng.uniform(-0.5, 0.5) for s_ in x_}
+                        ops.append({"op": "update_from_model", "sensor": key, "track": t, "at_state": {s_: fx(v) for s_, v in other.items()}, "faults": ["reading_from_sensor_model"]})
+                        z = {r: float(v) for r, v in zip(ref.readings[key], ref.sensor(key, other, P_)[0][:, 0])}
+                    else:
+                        z, faults = _gen_reading(rng, ref, key, x_, P_, k, p, tags)
+                        ops.append({"op": "update", "sensor": key, "track": t, "values": {r: fx(v) for r, v in z.items()}, "faults": faults})
+                    u = ref.update(key, x_, P_, z, k)
+                    if u is None:
+                        ops.pop()
+                        raise GenStop()
+                    if not (k is not None and u["nis"] > u["thr"]):
+                        xs[t], Ps[t] = u["x_post"], u["P_post"]
             else:
                 r = rng.random()
                 dt = max_dt if r < 0.15 else -max_dt if r < 0.25 else rng.choice([-1, 1, 1]) * rng.uniform(1e-4, max_dt)
+                tiny = rng.random() < 0.05
+                if tiny:
+                    dt = rng.choice([0.0, 1e-10, -1e-10, 5e-10, -5e-10, 1e-12])
                 ctl = {u: fx(rng.uniform(-2, 2)) for u in ref.U}
-                faults = []
-                if rng.random() < p["p_dup"]:
-                    faults.append("duplicate_call")
-                op = {"op": "predict", "dt": fx(dt), "control": ctl if (ref.U or rng.random() < 0.5) else None, "faults": faults}
-                ops.append(op)
-                nxt = ref.predict(dt, x, P, {u: xf(v) for u, v in ctl.items()})
-                if nxt is None or not all(math.isfinite(v) for v in nxt[0].values()):
-                    ops.pop()
-                    raise GenStop()
-                x, P, _ = nxt
+                for t in range(len(xs)):
+                    faults = ["tiny_dt"] if tiny else []
+                    if rng.random() < p["p_dup"]:
+                        faults.append("duplicate_call")
+                    op = {"op": "predict", "dt": fx(dt), "track": t, "control": ctl if (ref.U or rng.random() < 0.5) else None, "faults": faults}
+                    ops.append(op)
+                    nxt = ref.predict(dt, xs[t], Ps[t], {u: xf(v) for u, v in ctl.items()})
+                    if nxt is None or not all(math.isfinite(v) for v in nxt[0].values()):
+                        ops.pop()
+                        raise GenStop()
+                    xs[t], Ps[t], _ = nxt
                 if rng.random() < p["p_dup"] * 0.5 and len(ops) > 3:
                     ops.append({"op": "repeat", "of": rng.randrange(len(ops)), "faults": ["duplicate_call_deferred"]})
     else:
@@ -292,6 +347,7 @@ class Harness:
         self.ref = cached_ref(d)
         self.S = self.ref.S
         self.compile_error = None
+        self.handed_out = []  # (op index, (state bytes, cov bytes, state obj, cov obj)) of recent results
         self.worst = {"x": 0.0, "P": 0.0, "inn": 0.0, "S": 0.0, "asym": 0.0, "neg": 0.0}
         b = models.build(d)
         config = python.Config(common_subexpression_elimination=cfg["cse"], innovation_filtering=self.k, max_dt_sec=xf(cfg["max_dt_sec"]))
@@ -356,7 +412,13 @@ class Harness:
             res.truncated = "sut_refused"
             return None
         so, co = out
-        ex, eP = rel([[so.data[j, 0]] for j in range(len(self.S))], [[xr[s]] for s in self.S]), rel(co.data, Pr)
+        ex = rel([[so.data[j, 0]] for j in range(len(self.S))], [[xr[s]] for s in self.S])
+        # covariance: scale-invariant (noise magnitudes range over 12 decades): relative to ||G||^2 ||P|| + ||V||^2 ||M||
+        if P_in.size:
+            p_nat = float(np.linalg.norm(parts["G"], 2)) ** 2 * float(np.linalg.norm(P_in, 2)) + (float(np.linalg.norm(parts["V"], 2)) ** 2 * float(np.linalg.norm(ref.M, 2)) if ref.U else 0.0)
+            eP = (float(np.max(np.abs(np.asarray(co.data, dtype=float) - Pr))) / p_nat * 10.0) if (p_nat > 0 and co.data.shape == Pr.shape) else (0.0 if co.data.shape == Pr.shape and not np.any(co.data) else float("inf"))
+        else:
+            eP = 0.0
         self.worst["x"], self.worst["P"] = max(self.worst["x"], ex), max(self.worst["P"], eP)
         if ex > TOL_X:
             res.add("C04", "state_value", "C04:py:state_value", i, f"x' = f(x,u) by name: { {s: xr[s] for s in self.S} }", f"{self.x_of(so)} (rel err {ex:.3g}) dt={dt!r}")
@@ -463,7 +525,9 @@ class Harness:
         if rec_inn is None or rec_S is None:
             res.add(rp, "record_missing", f"{rp}:py:record_missing", i, "innovation and S recorded under the sensor key", "missing")
         else:
-            e1, e2 = rel(rec_inn, u["inn"]), rel(rec_S, u["S"])
+            zh_ = (float(np.max(np.abs(rd.data))) + float(np.max(np.abs(u["hx"])))) if rn else 1.0
+            e1 = (float(np.max(np.abs(np.asarray(rec_inn, dtype=float) - u["inn"]))) / max(zh_, 1e-300)) if np.shape(rec_inn) == u["inn"].shape else float("inf")
+            e2 = (float(np.max(np.abs(np.asarray(rec_S, dtype=float) - u["S"]))) / max(float(np.max(np.abs(u["S"]))), 1e-300)) if np.shape(rec_S) == u["S"].shape else float("inf")
             self.worst["inn"], self.worst["S"] = max(self.worst["inn"], e1), max(self.worst["S"], e2)
             if e1 > TOL_X:
                 res.add(rp, "innovation_record", f"{rp}:py:innovation_record" + (":discarded_reading" if rp == "C06" else ""), i, f"innovations[{key}] = z - h(x) = {u['inn'].T.tolist()}" + (" also for a discarded reading" if rp == "C06" else ""), f"{np.asarray(rec_inn).T.tolist()}")
@@ -511,10 +575,14 @@ class Harness:
         # ---- accepted update values (C05)
         res.stats["accept"] += 1
         # P - K H P and x + K(z-h) cancel: rounding is relative to the PRIOR's magnitude (and to |K (z-h)|), not to the small result
-        p_scale = 1.0 + max(float(np.max(np.abs(u["P_post"]))), float(np.max(np.abs(P_in)))) if P_in.size else 1.0
-        x_scale = 1.0 + max(abs(v) for v in u["x_post"].values()) + (float(np.max(np.abs(u["K"] @ u["inn"]))) if u["K"].size else 0.0)
+        # scale-invariant: covariance relative to the prior's magnitude (no "+1"); the state correction relative to |K (z-h)|
+        # plus the rounding of x itself and of z-h (1e-3 of the 1e-9 budget each)
+        p_scale = max(float(np.max(np.abs(u["P_post"]))), float(np.max(np.abs(P_in)))) if P_in.size else 1.0
+        kin_ = float(np.max(np.abs(u["K"] @ u["inn"]))) if u["K"].size else 0.0
+        zh = float(np.max(np.abs(rd.data))) + float(np.max(np.abs(u["hx"]))) if rn else 0.0
+        x_scale = kin_ + 1e-3 * (1.0 + max(abs(v) for v in u["x_post"].values()) + (float(np.max(np.abs(u["K"]))) if u["K"].size else 0.0) * zh)
         ex = float(np.max(np.abs(np.array([[so.data[j, 0]] for j in range(len(self.S))]) - np.array([[u["x_post"][s]] for s in self.S])))) / x_scale
-        eP = (float(np.max(np.abs(co.data - u["P_post"]))) / p_scale) if P_in.size else 0.0
+        eP = (float(np.max(np.abs(co.data - u["P_post"]))) / p_scale) if (P_in.size and p_scale > 0) else 0.0
         self.worst["x"], self.worst["P"] = max(self.worst["x"], ex), max(self.worst["P"], eP)
         tag = f"m{'>=2' if m > 1 else '=1'}"
         if ex > TOL_X:
@@ -578,10 +646,28 @@ def _log_est(res, tag, st, cov):
     res.log.append(f"{tag} x={[fx(v) for v in st.data[:, 0]]} P={[fx(v) for v in cov.data.flatten()]}")
 
 
+def initial_estimate(h, init, which="state"):
+    """initial State/Covariance objects, honouring the unusual dtypes a schedule may ask for (from_data on int64/float32 arrays)"""
+    x = {s_: xf(v) for s_, v in init[which].items()}
+    sd, cd = init.get("state_dtype", "float64"), init.get("cov_dtype", "float64")
+    if sd == "float64":
+        st = h.state_obj(x)
+    else:
+        st = h.ekf.State.from_data(np.array([[x[s_]] for s_ in h.S], dtype=sd))
+    P = np.array([[xf(v) for v in row] for row in init["covariance"]], dtype=float)
+    cov = h.ekf.Covariance.from_data(P if cd == "float64" else np.array(P, dtype=cd))
+    return st, cov
+
+
 def _execute_direct(schedule, h: Harness, res: Result):
     init = schedule["init"]
-    st = h.state_obj({s: xf(v) for s, v in init["state"].items()})
-    cov = h.cov_obj([[xf(v) for v in row] for row in init["covariance"]])
+    tracks = [initial_estimate(h, init)]
+    if init.get("state2") is not None:
+        tracks.append(initial_estimate(h, init, "state2"))
+        res.stats["fault:second_track"] += 1
+    for t_ in ("state_dtype", "cov_dtype"):
+        if init.get(t_, "float64") != "float64":
+            res.stats[f"fault:{t_}_{init[t_]}"] += 1
     saved = {}
     for i, op in enumerate(schedule["ops"]):
         if res.truncated:
@@ -598,18 +684,27 @@ def _execute_direct(schedule, h: Harness, res: Result):
                 if again[0].data.tobytes() != first[0].data.tobytes() or again[1].data.tobytes() != first[1].data.tobytes():
                     res.add("C04", "repeatability", "C04:py:repeatability:deferred", i, "repeating an earlier call (same inputs) after other calls intervened gives the identical result", f"first {first[0].data.T.tolist()} again {again[0].data.T.tolist()}")
             continue
+        t = op.get("track", 0)
+        if t >= len(tracks):
+            continue
+        st, cov = tracks[t]
         if kind == "predict":
             ctl = h.ctl_obj({u: xf(v) for u, v in op["control"].items()}) if op["control"] is not None else None
             dt = xf(op["dt"])
+            if "tiny_dt" in op["faults"]:
+                res.stats["fault:tiny_dt"] += 1
             out = h.predict(i, dt, st, cov, ctl, duplicate="duplicate_call" in op["faults"])
             if out is not None:
                 saved[i] = ("predict", (dt, st, cov, ctl), out)
-        elif kind in ("update", "update_at_prediction"):
+        elif kind in ("update", "update_at_prediction", "update_from_model"):
             key = op["sensor"]
             if kind == "update_at_prediction":
                 with contextlib.redirect_stdout(io.StringIO()):
                     pred = h.ekf.sensor_models[key].model(st)
                 rd = h.ekf.make_reading(key, data=np.array(pred.data, dtype=float).copy())
+            elif kind == "update_from_model":
+                with contextlib.redirect_stdout(io.StringIO()):
+                    rd = h.ekf.sensor_models[key].model(h.state_obj({s_: xf(v) for s_, v in op["at_state"].items()}))
             else:
                 rd = h.reading_obj(key, {r: xf(v) for r, v in op["values"].items()})
             for f in op["faults"]:
@@ -619,9 +714,16 @@ def _execute_direct(schedule, h: Harness, res: Result):
             raise RuntimeError(f"unknown op {kind}")
         if out is None:
             break
-        st, cov = out
+        # results handed out earlier must stay what they were (a later call must not write into an earlier result)
+        for j_, (b_s, b_c, o_s, o_c) in h.handed_out[-6:]:
+            if o_s.data.tobytes() != b_s or o_c.data.tobytes() != b_c:
+                res.add("C04" if kind == "predict" else "C05", "earlier_result_overwritten", f"{'C04' if kind == 'predict' else 'C05'}:py:earlier_result_overwritten", i, f"the estimate returned by operation {j_} is not modified by later calls", "its arrays changed")
+                h.handed_out.clear()
+                break
+        h.handed_out.append((i, (out[0].data.tobytes(), out[1].data.tobytes(), out[0], out[1])))
+        tracks[t] = out
         res.ops += 1
-        _log_est(res, f"{i} {kind}", st, cov)
+        _log_est(res, f"{i} {kind} t{t}", out[0], out[1])
         res.abstract.append(f"{kind[:1]}|m={len(h.ref.readings.get(op.get('sensor'), []))}|rej={int(res.stats['probe:discarded'])%2}|n={len(h.S)}u{len(h.ref.U)}c{len(h.ref.C)}")
 
 
@@ -674,8 +776,7 @@ def _execute_runtime(schedule, h: Harness, res: Result):
 
     init, cfg = schedule["init"], schedule["config"]
     max_dt = xf(cfg["max_dt_sec"])
-    st = h.state_obj({s: xf(v) for s, v in init["state"].items()})
-    cov = h.cov_obj([[xf(v) for v in row] for row in init["covariance"]])
+    st, cov = initial_estimate(h, init)
     px = Proxy(h)
     mf = ManagedFilter(px, xf(init["time"]), st, cov)
     held_t, held = xf(init["time"]), (st, cov)
